@@ -140,6 +140,8 @@ def judge (_id : String) (lines : Array String) : Verdict := Id.run do
       if obs != [sp] then
         return .specfail "delivered-exactly-once-in-order" s!"task {esc T} from#{i}: spec {sp} observed {" ".intercalate obs}"
       if obs != [m] then return .mismatch s!"task {esc T} from#{i}: model {m} observed {" ".intercalate obs}"
+    | ["close"] =>
+      return .mismatch s!"TaskMaster.Close: model ok observed {" ".intercalate obs}"
     | ["quiesce"] =>
       if obs != ["0"] then return .mismatch s!"the harness timed out waiting for the pipeline: {" ".intercalate obs}"
     | _ =>
